@@ -23,7 +23,7 @@ case "$VARIANT" in
   *) echo "unknown variant $VARIANT" >&2; exit 2 ;;
 esac
 LOG="$DIR/build.log"
-if ! ( cmake -G Ninja -S "$REPO" -B "$DIR" -DCMAKE_C_COMPILER=clang -DCMAKE_BUILD_TYPE=None \
+if ! ( cmake -G Ninja -S "$REPO" -B "$DIR" -DCMAKE_C_COMPILER="$VERIF/bin/ccwrap" -DCMAKE_BUILD_TYPE=None \
         -DWITH_TESTS=OFF -DWITH_GNUTLS=ON -DWITH_LIBCURL=OFF -DWITH_MBEDTLS=OFF \
         -DCMAKE_DISABLE_FIND_PACKAGE_Doxygen=ON \
         -DCMAKE_C_FLAGS="$SAN -DLIBJWT_VERIF -Wno-error" \
